@@ -21,6 +21,6 @@ The changes must look like plausible maintenance slips or "optimisations" (a ref
 Changes of these kinds exist already — make yours different in kind and location:
 {chr(10).join(have) if have else '- (none yet)'}
 
-Environment: no network. Before any go command: `export GOFLAGS= GOPROXY=off GOSUMDB=off GOTOOLCHAIN=local`. The repo has a go.work (root module + ./schema). Known quirks of the unchanged tree you may have to design around: delivering events to a catch/start/throw event no token has reached can block; an interrupting boundary event cannot cancel a pending task; a sub-process entered a second time does not restart; simultaneous delivery to both alternatives of an event-based gateway can deadlock.
+Never use `git stash` (the stash is shared by all worktrees of the repository and other people work in sibling worktrees): save work with `git diff > file` and restore with `git checkout -- .` / `git apply file`. Environment: no network. Before any go command: `export GOFLAGS= GOPROXY=off GOSUMDB=off GOTOOLCHAIN=local`. The repo has a go.work (root module + ./schema). Known quirks of the unchanged tree you may have to design around: delivering events to a catch/start/throw event no token has reached can block; an interrupting boundary event cannot cancel a pending task; a sub-process entered a second time does not restart; simultaneous delivery to both alternatives of an event-based gateway can deadlock.
 
 Deliver, for change k = 1..{n}, a directory /tmp/seed{r}-{p}/change<k>/ containing: patch.diff (`git diff` of the non-test change only, against the worktree HEAD, applies with `git apply`), demo_test.go (the demonstration; say in meta.json which directory it goes in, relative to the repo root, e.g. "demo_test.go" or "pkg/timer/demo_test.go"), any extra .bpmn fixture it needs, and meta.json with keys: property ("{p}"), name (short-kebab-case), demo_location, what_breaks, needs_to_manifest, how_to_run, files_changed. Leave the worktree clean (git checkout -- . ; remove your demo files) when done. In your final answer list the {n} changes with one paragraph each and the exact commands you ran to confirm (a)-(c).""")
